@@ -4,12 +4,17 @@
 import common
 import driver
 from props import c18_frames   # C18-FRAMES extension (worker): get_specific / assert_queue clause, see props/c18_frames.py
+from props import c18_create   # C18-CREATE extension (worker, audit F17): created-queue reports for every target, see props/c18_create.py
 
 PROPERTIES_FILE = "Properties/Properties_C18.v"
 COQ_DEPS = ["Proofs/Qos_proofs.vo", "Proofs/Attr_proofs.vo"]
 GEN_MODULES = ["Gen_qos"]
 COQ_DEPS += ["Proofs/Frames_proofs.vo"]   # C18-FRAMES extension
 GEN_MODULES += ["Gen_dqstate"]            # C18-FRAMES extension: Model/Frames.v calls the generated _dq_state_drain_locked_by
+# audit F17 follow-up (worker): drain-lock discipline (imports the C03 hierarchy protocol proof), created-queue reports, remaining
+# constructor pairs: two more properties files, merged by the driver
+EXTRA_PROPERTIES_FILES = ["Properties/Properties_C18_locks.v", "Properties/Properties_C18_create.v"]
+COQ_DEPS += ["Proofs/Frames_locks.vo", "Proofs/Create_proofs.vo"]
 LEVEL = "proof"
 TRUSTED = [
     "Model/Attr.v is hand-written; its tie is the exhaustive run over every entry of _dispatch_queue_attrs (and NULL): "
@@ -24,6 +29,20 @@ TRUSTED += [
     "frames_of_path (which frames each submission path establishes) is hand-written and tied ONLY by that correspondence (partial)",
     "object type constants of Model/Frames.v are compared with the library's on every run; _dq_state_drain_locked_by is generated (Gen_dqstate)",
 ]
+# audit F17 follow-up:
+TRUSTED += [
+    "frames_of_path for asynchronous items is a SET of stacks (Frames.allowed_threads: one per sublist of the frames redirection through "
+    "concurrent queues may leave out, Frames.skippable); the correspondence checks that the observed stack is a member of that set; which "
+    "member occurs (it depends on whether a concurrent queue was idle) is not predicted; contexts of nested items are the OBSERVED parent "
+    "stacks, a plain thread is taken to be (no queue, no frames), the main thread outside a callout (main queue, no frames)",
+    "drain-lock disjunct of dispatch_assert_queue: that every queue drain-locked by the executing thread lies on the chain / in the context "
+    "(Frames_proofs.lock_discipline) is PROVED only for hierarchies of serial lanes under dispatch_async (Properties_C18_locks.v, from the "
+    "invariant of Model/HLane.v, itself tied by the C03 correspondence); for sync hand-offs, concurrent queues, apply and thread-bound "
+    "queues it is an explicit hypothesis of the exactness theorems, observed on every probe (flag 'drain locks within chain / context')",
+    "Model/Create.v is hand-written (creation with every kind of target, on the dq_priority / dq_state / dq_atomic_flags words); tie: every "
+    "table entry x target kinds, words read from the created queue; its constants and the 12 root-queue priorities are compared with the "
+    "library's on every run; targets that are pthread root queues (TOther) do not exist on this build and are not exercised",
+]
 ASSUMPTIONS = ["build configuration without pthread workqueue QoS (HAVE_PTHREAD_WORKQUEUE_QOS=0): user-interactive clamps to "
                "user-initiated, maintenance to background"]
 
@@ -33,7 +52,12 @@ U64 = 1 << 64
 
 def correspond(ctx):
     # C18-FRAMES extension: run the attribute/global-queue part (unchanged, below) and the frames part, merge the two results
-    return _merge_results(_correspond_attr(ctx), c18_frames.correspond_frames(ctx))
+    res = _merge_results(_correspond_attr(ctx), c18_frames.correspond_frames(ctx))
+    cr = c18_create.correspond_create(ctx)                 # C18-CREATE extension
+    res = _merge_results(res, {k: v for k, v in cr.items() if k != "distribution"})
+    res["rule"] = res["rule"].replace(" || FRAMES: CREATION:", " || CREATION:")
+    res["distribution"]["create"] = cr.get("distribution", {})
+    return res
 
 
 def _merge_results(a, b):
@@ -44,7 +68,8 @@ def _merge_results(a, b):
     out["rule"] = (a.get("rule", "") + " || FRAMES: " + b.get("rule", "")).strip()
     out["samples"] = list(a.get("samples", []))[:6] + list(b.get("samples", []))[:6]
     out["distribution"] = dict(a.get("distribution", {}))
-    out["distribution"]["frames"] = b.get("distribution", {})
+    if "distribution" in b:
+        out["distribution"]["frames"] = b.get("distribution", {})
     out["mismatches"] = list(a.get("mismatches", [])) + list(b.get("mismatches", []))
     out["failures"] = list(a.get("failures", [])) + list(b.get("failures", []))
     return out
@@ -133,6 +158,8 @@ def replay(ctx, obj):
     for f in obj.get("failures", []):
         if str(f.get("key", "")).startswith("frames/"):     # C18-FRAMES extension
             c18_frames.replay_frames(ctx, f)
+        elif str(f.get("key", "")).startswith("create/"):   # C18-CREATE extension
+            c18_create.replay_create(ctx, f)
         elif f.get("call") == "dispatch_get_global_queue":
             r = common.run([exe], input="G %d %d\n" % tuple(f["args"]))
             print("dispatch_get_global_queue%s -> %s (recorded %s)" % (tuple(f["args"]), r.stdout.strip(), f.get("impl")))
